@@ -45,6 +45,20 @@ func Mid(a, b, tag int) { mg.Deps(mg.F(Leaf, a, tag*10+1), mg.F(Leaf, b, tag*10+
 
 func PlainErr(tag int) error { return errors.New("requested failure (plain)") }
 
+// failures without any text
+func QuietLeaf(code, tag int) error {
+	if code == 0 {
+		return nil
+	}
+	return mg.Fatal(code)
+}
+
+func QuietMid(a, b, tag int) { mg.Deps(mg.F(QuietLeaf, a, tag*10+1), mg.F(QuietLeaf, b, tag*10+2)) }
+
+func QuietErr(tag int) error { return errors.New("") }
+
+func QuietPanicker(tag int) { panic("") }
+
 func Panicker(tag int) { panic("requested failure (panic value)") }
 
 var counter int
@@ -83,6 +97,20 @@ func Fail(kind string, a, b int) error {
 		mg.Deps(mg.F(PlainErr, tag))
 	case "panicdep":
 		mg.Deps(mg.F(Panicker, tag))
+	case "qfatal":
+		return mg.Fatal(a)
+	case "qerr":
+		return errors.New("")
+	case "qdeps":
+		mg.Deps(mg.F(QuietLeaf, a, tag+1), mg.F(QuietLeaf, b, tag+2))
+	case "qdeep":
+		mg.Deps(mg.F(QuietMid, a, b, tag))
+	case "qserial":
+		mg.SerialDeps(mg.F(QuietLeaf, a, tag+1), mg.F(QuietLeaf, b, tag+2))
+	case "qerrdep":
+		mg.Deps(mg.F(QuietErr, tag))
+	case "qpanicdep":
+		mg.Deps(mg.F(QuietPanicker, tag))
 	}
 	return nil
 }
@@ -95,6 +123,10 @@ var c05Funcs = []J{
 	{"name": "Ok", "args": []string{}, "err": false},
 	{"name": "Panicker", "args": []string{"int"}, "err": false},
 	{"name": "PlainErr", "args": []string{"int"}, "err": true},
+	{"name": "QuietErr", "args": []string{"int"}, "err": true},
+	{"name": "QuietLeaf", "args": []string{"int", "int"}, "err": true},
+	{"name": "QuietMid", "args": []string{"int", "int", "int"}, "err": false},
+	{"name": "QuietPanicker", "args": []string{"int"}, "err": false},
 }
 
 func writeFiles(dir string, files map[string]string) {
@@ -165,7 +197,8 @@ func c05Calls(out string) [][]string {
 	return calls
 }
 
-var c05Kinds = []string{"ok", "ok", "err", "fatal", "fatal", "fatalf", "sh", "panicerr", "panicfatal", "panicval", "exit", "deps", "deps", "deep", "deep", "serial", "errdep", "panicdep"}
+var c05Kinds = []string{"ok", "ok", "err", "fatal", "fatal", "fatalf", "sh", "panicerr", "panicfatal", "panicval", "exit", "deps", "deps", "deep", "deep", "serial", "errdep", "panicdep",
+	"qfatal", "qerr", "qdeps", "qdeep", "qserial", "qerrdep", "qpanicdep"}
 
 func c05Code(r *rng.R) int {
 	switch r.Intn(6) {
@@ -185,7 +218,7 @@ func c05Target(r *rng.R, forceKind string) []string {
 	}
 	a, b := c05Code(r), c05Code(r)
 	switch k {
-	case "deps", "deep", "serial":
+	case "deps", "deep", "serial", "qdeps", "qdeep", "qserial":
 		switch r.Intn(4) {
 		case 0:
 			b = a // equal codes
